@@ -44,7 +44,7 @@ Record st := mkst {
 Definition init : st := mkst [] [] [] 0 0.
 
 Inductive fault := UseAfterFree | DoubleFree | OutOfBounds | BadFree | WildPointer | Crash.
-Inductive res := RUnit | RContent (d : content) | RCmp (o : N) | RPanic | RBad | RFault (f : fault).
+Inductive res := RUnit | RContent (d : content) | RStd (borrowed : bool) (d : content) | RCmp (o : N) | RPanic | RBad | RFault (f : fault).
 
 Definition bind {A B} (x : fault + A) (f : A -> fault + B) : fault + B :=
   match x with inl e => inl e | inr a => f a end.
@@ -209,6 +209,7 @@ Inductive op :=
 | Deref (h : nat)
 | Cmp (h h' : nat)                    (* eq / cmp / hash all go through deref *)
 | IntoOwned (h : nat)                 (* the caller reads the returned value and drops it *)
+| IntoStdCow (h : nat)                (* std::borrow::Cow::from(cow); the caller reads the result and drops it *)
 | Drop (h : nat)                      (* on this or on another thread *)
 | WithExtra (h : nat) (extra : content)   (* Key::with_extra_labels: clone, into_owned, extend, from_owned *)
 | ArcNew (d : content) | ArcClone (r : nat) | ArcDrop (r : nat).   (* the caller's own Arc references *)
@@ -253,6 +254,20 @@ Definition step (tr : bool) (s : st) (o : op) : res * st :=
                          do d <- read s1 v;
                          do s2 <- drop_vec tr s1 v;
                          inr (RContent d, s2))
+      end
+  | IntoStdCow h =>                       (* cow.rs:329-341 *)
+      match get s h with
+      | None => (RBad, s)
+      | Some c =>
+          match kind_of (c_len c) (c_cap c) with
+          | KBorrowed =>                  (* the reference is rebuilt, then `value` is dropped at the end of from() *)
+              fin s (do s1 <- drop_parts tr (consume s h) c; do d <- read s1 c; inr (RStd true d, s1))
+          | _ =>                          (* Self::Owned(value.into_owned()) *)
+              fin s (do (v, s1) <- owned_parts tr (consume s h) c;
+                     do d <- read s1 v;
+                     do s2 <- drop_vec tr s1 v;
+                     inr (RStd false d, s2))
+          end
       end
   | Drop h =>
       match get s h with
